@@ -82,6 +82,21 @@ def residue_contract(rows, stack=False):
     cexp = [np.mean(c2[[j for j in range(n) if seg_of[j] == k]], axis=0).tolist() for k in range(len(exp_starts))]
     if not np.allclose(cgot, cexp):
         return "apply_residue_wise(coord, np.mean, axis=0) differs from per-segment recomputation"
+    # 'axis' is handed to the function as the keyword argument it is documented to be: functions whose second
+    # positional parameter means something else (np.linalg.norm: ord; a partial; keyword-only axis) work as well
+    import functools
+
+    def kw_only(x, *, axis=None):
+        return np.sum(x, axis=axis)
+    for fn, data, ax, name in ((np.linalg.norm, vals + 0.5, 0, "np.linalg.norm on 1-d data, axis=0"), (np.linalg.norm, c2.astype(float) + 1, 0, "np.linalg.norm on coordinates, axis=0"),
+                               (functools.partial(np.percentile, q=50), vals, 0, "partial(np.percentile, q=50), axis=0"), (kw_only, c2.astype(float), 0, "function with keyword-only axis")):
+        try:
+            got = np.asarray(struc.apply_residue_wise(a, data, fn, axis=ax))
+        except Exception as e:
+            return f"apply_residue_wise({name}) raised {type(e).__name__}: {e}"
+        want = np.array([fn(np.asarray(data)[[j for j in range(n) if seg_of[j] == k]], axis=ax) for k in range(len(exp_starts))])
+        if got.shape != want.shape or not np.allclose(got, want):
+            return f"apply_residue_wise({name}) = {got.tolist()}, function(data[start:stop], axis={ax}) per residue gives {want.tolist()}"
     spread = struc.spread_residue_wise(a, np.arange(len(exp_starts))).tolist()
     if spread != seg_of:
         return f"spread_residue_wise {spread} != {seg_of}"
